@@ -137,7 +137,7 @@ pub fn eval_limit_straight(prog: &[u8], n_ops: u32) {
 // ---- locations and pieces ----
 #[kani::proof]
 #[kani::unwind(8)]
-fn c07_q_eval_register_location() {
+fn c07_t_eval_register_location() {
     // DW_OP_reg5 ; and DW_OP_regx r
     let enc = any_enc();
     let prog = [0x55u8];
@@ -155,7 +155,7 @@ fn c07_q_eval_register_location() {
 
 #[kani::proof]
 #[kani::unwind(8)]
-fn c07_q_eval_pieces() {
+fn c07_t_eval_pieces() {
     // reg3 piece(n) ; lit7 stack_value piece(m)
     let enc = any_enc();
     let (n, m): (u8, u8) = (kani::any(), kani::any());
@@ -171,7 +171,7 @@ fn c07_q_eval_pieces() {
 
 #[kani::proof]
 #[kani::unwind(8)]
-fn c07_q_eval_location_then_garbage() {
+fn c07_t_eval_location_then_garbage() {
     // a register location followed by anything but a piece is malformed
     let enc = any_enc();
     let prog = [0x53u8, 0x31];
@@ -191,7 +191,7 @@ fn c07_q_eval_location_then_garbage() {
 // ---- suspensions: the evaluator asks for exactly what the operation names and continues from the answer ----
 #[kani::proof]
 #[kani::unwind(8)]
-fn c07_q_eval_fbreg_breg_cfa() {
+fn c07_t_eval_fbreg_breg_cfa() {
     let enc = any_enc();
     let mask = mask_of(enc.address_size);
     let o: u8 = kani::any();
@@ -223,7 +223,7 @@ fn c07_q_eval_fbreg_breg_cfa() {
 
 #[kani::proof]
 #[kani::unwind(12)]
-fn c07_q_eval_deref_addr() {
+fn c07_t_eval_deref_addr() {
     let enc = any_enc();
     let mask = mask_of(enc.address_size);
     // DW_OP_const8u a ; DW_OP_deref ; DW_OP_lit1 ; DW_OP_plus
@@ -289,7 +289,7 @@ fn c07_q_eval_initial_value_and_empty() {
 /// nested calls: DW_OP_call2 answered with [lit k ; call2 ; lit] ... the caller continues after the callee ends
 #[kani::proof]
 #[kani::unwind(10)]
-fn c07_q_eval_call_continues() {
+fn c07_t_eval_call_continues() {
     let enc = any_enc();
     let mask = mask_of(enc.address_size);
     // main: call2 0x1234 ; lit3 ; plus          callee: lit4
@@ -312,7 +312,7 @@ fn c07_q_eval_call_continues() {
 /// the iteration budget covers the whole evaluation, across calls and resumes
 #[kani::proof]
 #[kani::unwind(12)]
-fn c07_q_eval_limit_across_calls() {
+fn c07_t_eval_limit_across_calls() {
     let enc = any_enc();
     // main: call2 ; call2 ; lit1        callee: lit2 ; drop     => 3 + 2*2 = 7 operations
     let prog = [0x98u8, 0, 0, 0x98, 0, 0, 0x31];
